@@ -16,7 +16,9 @@ const raterunPkg = core.ModPath + "/internal/raterun"
 // runnerFacts locates, by role, the pieces of the periodic runner every C18/C05 rule talks about.
 type runnerFacts struct {
 	fnSites   []ssa.CallInstruction // dynamic calls of a raterun.RunFunction value
-	loop      *ssa.Function         // the function containing them (must be a goroutine root)
+	body      *ssa.Function         // the function containing them and the select (the goroutine itself, or a step helper)
+	loop      *ssa.Function         // the goroutine root that runs body (body itself when it is started with `go`)
+	siteEv    map[ssa.CallInstruction]an.Event
 	stop      *ssa.Function         // method that calls the stored CancelFunc and then receives from a channel field
 	joinField *types.Var            // that channel field
 	cancelFld *types.Var            // the CancelFunc field
@@ -33,7 +35,30 @@ func findRunner(c *core.Ctx) *runnerFacts {
 		for _, call := range an.AllCalls(fn) {
 			if n := an.DynCallType(call); n != nil && an.IsNamed(n, raterunPkg, "RunFunction") {
 				f.fnSites = append(f.fnSites, call)
-				f.loop = fn
+				f.body, f.loop = fn, fn
+			}
+		}
+	}
+	f.siteEv = map[ssa.CallInstruction]an.Event{}
+	if f.body != nil && len(an.GoTargetOf(c.AllFuncs, f.body)) == 0 {
+		// a step helper: the goroutine is the go-started function that calls it (through helpers)
+		for _, g := range c.AllFuncs {
+			if core.RelPkg(g) != core.RelPkg(f.body) || len(an.GoTargetOf(c.AllFuncs, g)) == 0 {
+				continue
+			}
+			evs := an.FlatCalls(g, flatDepth, func(call ssa.CallInstruction, _ *ssa.Function) bool {
+				for _, s := range f.fnSites {
+					if s == call {
+						return true
+					}
+				}
+				return false
+			})
+			if len(evs) > 0 {
+				f.loop = g
+				for _, e := range evs {
+					f.siteEv[e.Call()] = e
+				}
 			}
 		}
 	}
@@ -101,6 +126,9 @@ func c18(c *core.Ctx, r *core.Report) {
 				continue
 			}
 			gos := an.GoTargetOf(c.AllFuncs, fn)
+			if len(gos) == 0 && f.loop != nil && f.loop != fn {
+				gos = an.GoTargetOf(c.AllFuncs, f.loop) // fn is a step helper of the goroutine
+			}
 			if len(gos) == 0 {
 				r.Violation(key, pos, "run function invoked from %s, which is not the target of a go statement (it runs in the caller's frame)", core.FuncName(fn))
 				continue
@@ -137,7 +165,7 @@ func c18(c *core.Ctx, r *core.Report) {
 		r.Check(an.Dominates(f.stopCall, f.stopRecv), core.FuncName(f.stop)+"#cancel-before-wait", an.Pos(c, f.stopCall),
 			"the stored CancelFunc is called before the receive", "Stop waits on the join channel before cancelling: it blocks until the parent context ends")
 		found := 0
-		for _, sel := range an.Selects(f.loop) {
+		for _, sel := range an.Selects(f.body) {
 			arms := an.SelectArms(sel)
 			for idx, st := range sel.States {
 				call, ok := an.Terminal(st.Chan).(*ssa.Call)
@@ -150,6 +178,14 @@ func c18(c *core.Ctx, r *core.Report) {
 				// the context must be the one whose cancel func is stored in the field Stop calls: follow the value
 				// out of the goroutine (captured variable or argument of the go statement) to its WithCancel call
 				ctxV := an.Strip(call.Common().Value)
+				if p, isParam := ctxV.(*ssa.Parameter); isParam && f.body != f.loop {
+					// a parameter of the step helper: the argument at its call in the goroutine
+					for _, site := range an.CallSitesOf(c, f.body) {
+						if idx := an.ParamIndex(p); idx >= 0 && idx < len(site.Common().Args) {
+							ctxV = an.Strip(site.Common().Args[idx])
+						}
+					}
+				}
 				for i := 0; i < 4; i++ {
 					switch x := ctxV.(type) {
 					case *ssa.FreeVar:
@@ -353,7 +389,7 @@ func c18(c *core.Ctx, r *core.Report) {
 			return "", false
 		}
 		sawRestart, sawTimer := false, false
-		for _, sel := range an.Selects(f.loop) {
+		for _, sel := range an.Selects(f.body) {
 			arms := an.SelectArms(sel)
 			for idx, st := range sel.States {
 				fld, owner := an.TerminalField(st.Chan)
@@ -435,7 +471,11 @@ func joinRule(c *core.Ctx, r *core.Report, f *runnerFacts) {
 			if _, isDefer := in.(*ssa.Defer); isDefer {
 				ok := true
 				for _, s := range f.fnSites {
-					if !an.Dominates(in, s) {
+					var at ssa.Instruction = s
+					if ev, isEv := f.siteEv[s]; isEv {
+						at = ev.Root() // the call in the goroutine's own frame that leads to the invocation
+					}
+					if !an.Dominates(in, at) {
 						ok = false
 					}
 				}
@@ -447,7 +487,11 @@ func joinRule(c *core.Ctx, r *core.Report, f *runnerFacts) {
 				return
 			}
 			for _, s := range f.fnSites {
-				if an.ReachableFrom(in, s) {
+				var at ssa.Instruction = s
+				if ev, isEv := f.siteEv[s]; isEv {
+					at = ev.Root()
+				}
+				if an.ReachableFrom(in, at) {
 					r.Violation(key, pos, "the run function can still be invoked (%s) after the join channel is released", an.Pos(c, s))
 					return
 				}
